@@ -186,6 +186,8 @@ func (sc *Scenario) OnReq(a *ap.App, t *mc.T, req *ap.Req) *RunOut {
 			panic("unknown entry " + sc.Entry)
 		}
 	}
+	wid := beginReq(sc)
+	defer endReq(wid)
 	if t != nil {
 		call() // panics are recovered (and attributed) at the thread root
 	} else {
